@@ -118,11 +118,7 @@ func checkRequestLineMode(w *core.Worker, meth, uri, ver, line string, in []byte
 		fail(fmt.Sprintf("tokens reported as %q %q %q", fl.Method.Get(in), fl.URI.Get(in), fl.Version.Get(in)))
 	case int(fl.MethodNo) != wantNo:
 		fail(fmt.Sprintf("MethodNo %d, the method table says %d", fl.MethodNo, wantNo))
-	case fl.Status != 0 || fl.StatusCode.Len != 0 || fl.Reason.Len != 0:
-		fail("status fields set on a request")
-	case !fl.Parsed() || fl.Pending() || fl.Empty():
-		fail("Parsed/Pending/Empty predicates inconsistent after success")
-	}
+	} // (what the status fields of a request and the state predicates hold is not part of the statement)
 	// long method tokens: two pieces, cut at every position from byte 14 to the end of the token
 	// (the first call waits for 14 bytes, so only such cuts suspend inside the token)
 	if !chunked && len(meth) > 14 && okAll {
@@ -199,9 +195,7 @@ func checkStatusLine(w *core.Worker, ver string, code int, reason, eol string) {
 		fail(fmt.Sprintf("Reason %q, expected %q", fl.Reason.Get(in), reason), "")
 	case string(fl.Version.Get(in)) != ver:
 		fail(fmt.Sprintf("Version %q", fl.Version.Get(in)), "")
-	case fl.Method.Len != 0 || fl.URI.Len != 0 || fl.MethodNo != 0:
-		fail("request fields set on a reply", "")
-	}
+	} // (what the request fields of a reply hold is not part of the statement)
 	// PSIPMsg.Method() of a reply comes from CSeq
 	var m sipsp.PSIPMsg
 	full := []byte(line + "CSeq: 1 BYE\r\n\r\n")
